@@ -69,7 +69,7 @@ def keysOf (m : PM) : List String := m.map (·.1)
 
 /-- ∀ key of either map: `a[k] ≤ b[k]` (missing = 0). -/
 def leMap (a b : PM) : Bool :=
-  (keysOf a ++ keysOf b).all fun k => decide (get (0 : Int) a k ≤ get 0 b k)
+  (keysOf a ++ keysOf b).all fun k => decide (mget (0 : Int) a k ≤ mget 0 b k)
 
 def parseCfg (a b c : String) : Option (Cfg Int) :=
   match parseVal a, parseVal b, parseVal c with
@@ -87,7 +87,7 @@ entries Go evidently processed before the sender's own entry come first. -/
 def witnessOrder (cfg : Cfg Int) (own : PM) (peer : String) (vec post : PM) : PM :=
   if (vec.any (·.1 == peer)) then
     let before := vec.filter fun e => e.1 != peer &&
-      get 0 post e.1 == transVal O cfg.beta (get O.zero own e.1) (get O.zero own peer) e.2
+      mget 0 post e.1 == transVal O cfg.beta (mget O.zero own e.1) (mget O.zero own peer) e.2
     let self := vec.filter (·.1 == peer)
     let after := vec.filter fun e => e.1 != peer && !(before.any (·.1 == e.1))
     before ++ self ++ after
@@ -99,7 +99,7 @@ def fwdSpec (isMeta : Bool) (direct : Bool) (st : St String Int) (dest : String)
     if direct && nodeOf p == nodeOf dest then none
     else if isMeta then some s!"metadata-bundle-forwarded peer={p}"
     else
-      let o := get (0 : Int) st.own dest
+      let o := mget (0 : Int) st.own dest
       let pp := peerPred O st p dest
       if sentBefore.contains p then some s!"forward-already-sent peer={p}"
       else if pp > o then none
